@@ -89,7 +89,7 @@ func TestC01(t *testing.T) {
 
 var profIterOps = Profile{
 	Name: "iterops", MinSteps: 10, MaxSteps: 45, IterOpsMax: 14, MaxIters: 3,
-	W: map[string]int{"write": 26, "batch": 8, "flush": 6, "compact": 3, "wait": 3, "ingest": 4, "iternew": 12, "iterop": 30, "iterclose": 4, "iterclone": 2, "restart": 1},
+	W:   map[string]int{"write": 26, "batch": 8, "flush": 6, "compact": 3, "wait": 3, "ingest": 4, "iternew": 12, "iterop": 30, "iterclose": 4, "iterclone": 2, "restart": 1},
 	OpW: opWDefault,
 }
 
@@ -156,7 +156,7 @@ func TestC05(t *testing.T) {
 
 var profRangeKeys = Profile{
 	Name: "rangekeys", MinSteps: 12, MaxSteps: 55, IterOpsMax: 10, MaxIters: 2, MaxSnaps: 1,
-	W: map[string]int{"write": 30, "batch": 10, "flush": 8, "compact": 5, "wait": 3, "ingest": 6, "scan": 14, "iternew": 8, "iterop": 16, "iterclose": 3, "restart": 1, "snap": 1, "snapread": 2, "snapclose": 1},
+	W:   map[string]int{"write": 30, "batch": 10, "flush": 8, "compact": 5, "wait": 3, "ingest": 6, "scan": 14, "iternew": 8, "iterop": 16, "iterclose": 3, "restart": 1, "snap": 1, "snapread": 2, "snapclose": 1},
 	OpW: map[string]int{"set": 12, "del": 3, "merge": 2, "delrange": 8, "rkset": 30, "rkunset": 14, "rkdel": 10},
 }
 
@@ -172,7 +172,7 @@ func TestC08(t *testing.T) {
 
 var profMasking = Profile{
 	Name: "masking", MinSteps: 12, MaxSteps: 50, IterOpsMax: 10, MaxIters: 2, Masking: true,
-	W: map[string]int{"write": 30, "batch": 14, "flush": 9, "compact": 5, "wait": 3, "ingest": 4, "scan": 20, "iternew": 8, "iterop": 16, "iterclose": 3},
+	W:   map[string]int{"write": 30, "batch": 14, "flush": 9, "compact": 5, "wait": 3, "ingest": 4, "scan": 20, "iternew": 8, "iterop": 16, "iterclose": 3},
 	OpW: map[string]int{"set": 34, "del": 2, "merge": 2, "delrange": 1, "rkset": 24, "rkunset": 3, "rkdel": 2},
 	Opt: func(t *rapid.T, o *OptPlan) {
 		o.BlockSize = rapid.SampledFrom([]int{1, 16, 64}).Draw(t, "maskbs")
@@ -215,7 +215,7 @@ var crashOpt = func(t *rapid.T, o *OptPlan) {
 
 var profCrashDurable = Profile{
 	Name: "crash-durable", BlobIngestPct: 35, WALRelocate: true, BigRecordPct: 6, SchedPct: 60, MinSteps: 8, MaxSteps: 35, DurableIngest: true, SyncPct: 45,
-	W: map[string]int{"write": 40, "batch": 14, "bigbatch": 2, "flush": 6, "compact": 3, "wait": 3, "ingest": 4, "ingestexcise": 2, "excise": 1, "restart": 2},
+	W:   map[string]int{"write": 40, "batch": 14, "bigbatch": 2, "flush": 6, "compact": 3, "wait": 3, "ingest": 4, "ingestexcise": 2, "excise": 1, "restart": 2},
 	OpW: opWDefault, CrashGen: crashGen(9),
 	Opt: func(t *rapid.T, o *OptPlan) { crashOpt(t, o); o.DisableWAL = false },
 }
@@ -301,10 +301,10 @@ func execProvOutcome(p *ProvPlan) (evid.Outcome, error) {
 
 var profCrashPrefix = Profile{
 	Name: "crash-prefix", BlobIngestPct: 35, WALRelocate: true, BigRecordPct: 6, SchedPct: 60, MinSteps: 10, MaxSteps: 40, DurableIngest: true, SyncPct: 12,
-	W: map[string]int{"write": 30, "batch": 26, "bigbatch": 2, "flush": 4, "compact": 2, "wait": 3, "ingest": 2, "restart": 1, "crashrestart": 5},
-	OpW: map[string]int{"set": 22, "del": 12, "merge": 16, "delrange": 10, "sdel": 8, "delsized": 4, "rkset": 6, "rkunset": 3, "rkdel": 2, "logdata": 1},
+	W:        map[string]int{"write": 30, "batch": 26, "bigbatch": 2, "flush": 4, "compact": 2, "wait": 3, "ingest": 2, "restart": 1, "crashrestart": 5},
+	OpW:      map[string]int{"set": 22, "del": 12, "merge": 16, "delrange": 10, "sdel": 8, "delsized": 4, "rkset": 6, "rkunset": 3, "rkdel": 2, "logdata": 1},
 	CrashGen: crashGen(11),
-	Opt: func(t *rapid.T, o *OptPlan) { crashOpt(t, o); o.DisableWAL = false },
+	Opt:      func(t *rapid.T, o *OptPlan) { crashOpt(t, o); o.DisableWAL = false },
 }
 
 // baseOpt is a plain configuration for hand-written demonstration plans.
@@ -343,7 +343,7 @@ func TestC11(t *testing.T) {
 
 var profCrashFlush = Profile{
 	Name: "crash-flush", WALRelocate: true, BigRecordPct: 6, SchedPct: 60, MinSteps: 8, MaxSteps: 30, DurableIngest: true, SyncPct: 1,
-	W: map[string]int{"write": 40, "batch": 14, "flush": 12, "compact": 3, "wait": 4, "restart": 6, "ingest": 2},
+	W:   map[string]int{"write": 40, "batch": 14, "flush": 12, "compact": 3, "wait": 4, "restart": 6, "ingest": 2},
 	OpW: opWDefault, CrashGen: crashGen(9),
 	Opt: func(t *rapid.T, o *OptPlan) {
 		crashOpt(t, o)
@@ -365,8 +365,8 @@ func TestC12(t *testing.T) {
 
 var profORGD = Profile{
 	Name: "orgd", MinSteps: 8, MaxSteps: 35, DurableIngest: true, SyncPct: 30,
-	W: map[string]int{"write": 40, "batch": 12, "flush": 8, "compact": 3, "wait": 3, "ingest": 2, "restart": 1, "orgd": 14},
-	OpW: opWDefault,
+	W:        map[string]int{"write": 40, "batch": 12, "flush": 8, "compact": 3, "wait": 3, "ingest": 2, "restart": 1, "orgd": 14},
+	OpW:      opWDefault,
 	CrashGen: func(t *rapid.T, o OptPlan) *CrashPlan { return &CrashPlan{Stride: 0, Surv: []int{0}, MaxImages: 1} },
 	Opt:      crashOpt,
 }
@@ -397,7 +397,7 @@ func TestC13(t *testing.T) {
 
 var profManifest = Profile{
 	Name: "manifest", BlobIngestPct: 35, WALRelocate: true, SchedPct: 60, MinSteps: 8, MaxSteps: 26, DurableIngest: true, SyncPct: 30,
-	W: map[string]int{"write": 30, "batch": 10, "flush": 16, "compact": 10, "wait": 4, "ingest": 10, "ingestexcise": 4, "excise": 3, "restart": 2},
+	W:   map[string]int{"write": 30, "batch": 10, "flush": 16, "compact": 10, "wait": 4, "ingest": 10, "ingestexcise": 4, "excise": 3, "restart": 2},
 	OpW: opWDefault,
 	CrashGen: func(t *rapid.T, o OptPlan) *CrashPlan {
 		return &CrashPlan{Stride: 0, Hot: 1, Surv: []int{0, 1, rapid.IntRange(2, 1000).Draw(t, "csalt")}, MaxImages: 400}
@@ -423,7 +423,7 @@ func TestC22(t *testing.T) {
 
 var profRatchet = Profile{
 	Name: "ratchet", SchedPct: 60, MinSteps: 8, MaxSteps: 28, DurableIngest: true, SyncPct: 40,
-	W: map[string]int{"write": 34, "batch": 10, "flush": 8, "compact": 3, "wait": 2, "ingest": 3, "restart": 3, "ratchet": 10, "get": 4, "scan": 3},
+	W:   map[string]int{"write": 34, "batch": 10, "flush": 8, "compact": 3, "wait": 2, "ingest": 3, "restart": 3, "ratchet": 10, "get": 4, "scan": 3},
 	OpW: opWDefault, CrashGen: crashGen(5),
 	Opt: func(t *rapid.T, o *OptPlan) {
 		o.FMV = rapid.IntRange(int(pebble.FormatMinSupported), int(pebble.FormatNewest)-1).Draw(t, "c40fmv")
@@ -449,7 +449,7 @@ var profCheckpoint = Profile{
 	// cannot be opened without pointing WALRecoveryDirs at the source's live WAL
 	// directory. Stores without a separate WALDir are checked.
 	Opt: func(t *rapid.T, o *OptPlan) { o.WALDir = false },
-	W: map[string]int{"write": 40, "batch": 12, "flush": 6, "compact": 3, "wait": 3, "restart": 1, "checkpoint": 10, "get": 3, "ingest": 3},
+	W:   map[string]int{"write": 40, "batch": 12, "flush": 6, "compact": 3, "wait": 3, "restart": 1, "checkpoint": 10, "get": 3, "ingest": 3},
 	OpW: opWDefault,
 }
 
@@ -582,7 +582,7 @@ func TestC44(t *testing.T) {
 
 var profLevelInv = Profile{
 	Name: "levels", MinSteps: 20, MaxSteps: 70, DurableIngest: false, BigValues: true,
-	W: map[string]int{"write": 30, "batch": 10, "bigbatch": 2, "flush": 10, "compact": 6, "wait": 8, "ingest": 16, "ingestexcise": 5, "excise": 4, "restart": 1, "snap": 2, "snapclose": 1},
+	W:   map[string]int{"write": 30, "batch": 10, "bigbatch": 2, "flush": 10, "compact": 6, "wait": 8, "ingest": 16, "ingestexcise": 5, "excise": 4, "restart": 1, "snap": 2, "snapclose": 1},
 	OpW: opWDefault, MaxSnaps: 2,
 	Opt: func(t *rapid.T, o *OptPlan) {
 		o.CheckLevels = true
